@@ -338,7 +338,8 @@ func factsOf(name, snapDir string) nameFacts {
 		return f
 	}
 	f.Nested = strings.Contains(name[:i], "/")
-	for _, e := range strings.Split(name[:i], "/") {
+	pre := strings.Split(name[:i], "/")
+	for _, e := range pre[:len(pre)-1] { // the last piece belongs to the set-id component
 		if e == ".." {
 			f.PrefixDotDot = true
 		}
@@ -1046,9 +1047,6 @@ func (sc *scenario) runImports(c *kit.Check, n int, only int) {
 		st := sc.genStream(r, i)
 		sc.nextID++
 		id := sc.nextID
-		if os.Getenv("VERIF_C32_DUMP_NAMES") != "" { // debugging aid
-			fmt.Printf("c32-name case=%d class=%s variant=%q name=%q\n", caseIdx, st.Class, st.Variant, st.Name)
-		}
 		os.WriteFile(filepath.Join(kit.WorkDir("C32"), "inflight.json"), []byte(kit.JSON(map[string]interface{}{"case_index": caseIdx, "op": "import", "class": st.Class, "variant": st.Variant, "name": st.Name})), 0644)
 
 		before, err := listTree(sc.top)
@@ -1071,6 +1069,9 @@ func (sc *scenario) runImports(c *kit.Check, n int, only int) {
 			outcome = "accepted"
 		}
 		c.Count("import_"+outcome, 1)
+		if os.Getenv("VERIF_C32_DUMP_NAMES") != "" { // debugging aid
+			fmt.Printf("c32-name case=%d class=%s outcome=%s variant=%q name=%q err=%v\n", caseIdx, st.Class, outcome, st.Variant, st.Name, ierr)
+		}
 		c.Count("import_class_"+st.Class+"_"+outcome, 1)
 		c.Nontrivial(kit.Sig("import", st.Class, st.Variant, outcome))
 		var facts nameFacts
